@@ -1,11 +1,12 @@
 //! C30 executor: the reference advertisement as understood by gitoxide.
 //!
-//! case: {"op": "live", "path": "<server repository>", "version": 0|1|2, "prefixes": [[bytes]..]}
+//! case: {"op": "live", "path": "<server repository>", "version": 0|1|2, "prefix_sets": [[[bytes]..]..]}
 //!         gix_transport's file transport spawns `git-upload-pack <path>`; gix_protocol::handshake and,
 //!         for protocol 2, gix_protocol::ls_refs (arguments as chosen by gitoxide + the ref-prefix lines).
-//!       {"op": "replay", "wire": [bytes], "version": .., "prefixes": ..}
+//!       {"op": "replay", "wire": [bytes], "version": .., "prefix_sets": ..}
 //!         the same over an in-memory connection that replays bytes captured from git upload-pack.
-//! got:  {"ok": bool, "err": str, "protocol": 0|1|2, "refs": [{"k","name","target","tag","object"}], "ls_args": [[bytes]]}
+//!         for protocol 2 one ls-refs command per prefix set is sent on the same connection.
+//! got:  {"ok": bool, "err": str, "protocol": 0|1|2, "convs": [{"ok","err","refs": [{"k","name","target","tag","object"}], "ls_args": [[bytes]]}]}
 use bstr::{BString, ByteSlice};
 use gix_protocol::handshake::Ref;
 use gix_transport::client::{git, Transport};
@@ -41,7 +42,7 @@ fn version_of(v: &Json) -> Protocol {
     }
 }
 
-fn converse(mut transport: impl Transport, prefixes: &[Vec<u8>]) -> Json {
+fn converse(mut transport: impl Transport, prefix_sets: &[Vec<Vec<u8>>]) -> Json {
     let mut progress = gix_features::progress::Discard;
     let outcome = match gix_protocol::fetch::handshake(
         &mut transport,
@@ -50,47 +51,55 @@ fn converse(mut transport: impl Transport, prefixes: &[Vec<u8>]) -> Json {
         &mut progress,
     ) {
         Ok(o) => o,
-        Err(e) => return json!({"ok": false, "err": format!("handshake: {e}"), "protocol": -1, "refs": [], "ls_args": []}),
+        Err(e) => return json!({"ok": false, "err": format!("handshake: {e}"), "protocol": -1, "convs": []}),
     };
     let protocol = outcome.server_protocol_version as usize;
-    let mut sent_args: Vec<BString> = Vec::new();
-    let refs = match outcome.refs {
-        Some(refs) => refs,
+    let mut convs = Vec::new();
+    match outcome.refs {
+        Some(refs) => convs.push(json!({"ok": true, "err": "", "refs": refs.iter().map(jref).collect::<Vec<_>>(), "ls_args": []})),
         None => {
-            let res = gix_protocol::ls_refs(
-                &mut transport,
-                &outcome.capabilities,
-                |_caps, args, features| {
-                    features.push(("agent", Some(std::borrow::Cow::Borrowed("git/vh-c30"))));
-                    for p in prefixes {
-                        let mut a = BString::from("ref-prefix ");
-                        a.extend_from_slice(p);
-                        args.push(a);
+            // one `ls-refs` command per prefix set on the same (stateful) connection
+            for prefixes in prefix_sets {
+                let mut sent_args: Vec<BString> = Vec::new();
+                let res = gix_protocol::ls_refs(
+                    &mut transport,
+                    &outcome.capabilities,
+                    |_caps, args, features| {
+                        features.push(("agent", Some(std::borrow::Cow::Borrowed("git/vh-c30"))));
+                        for p in prefixes {
+                            let mut a = BString::from("ref-prefix ");
+                            a.extend_from_slice(p);
+                            args.push(a);
+                        }
+                        sent_args = args.clone();
+                        Ok(gix_protocol::ls_refs::Action::Continue)
+                    },
+                    &mut progress,
+                    false,
+                );
+                let ls_args = sent_args.iter().map(|a| jbytes(a)).collect::<Vec<_>>();
+                match res {
+                    Ok(r) => convs.push(json!({"ok": true, "err": "", "refs": r.iter().map(jref).collect::<Vec<_>>(), "ls_args": ls_args})),
+                    Err(e) => {
+                        convs.push(json!({"ok": false, "err": format!("ls_refs: {e}"), "refs": [], "ls_args": ls_args}));
+                        break;
                     }
-                    sent_args = args.clone();
-                    Ok(gix_protocol::ls_refs::Action::Continue)
-                },
-                &mut progress,
-                false,
-            );
-            match res {
-                Ok(r) => r,
-                Err(e) => {
-                    return json!({"ok": false, "err": format!("ls_refs: {e}"), "protocol": protocol, "refs": [],
-                                  "ls_args": sent_args.iter().map(|a| jbytes(a)).collect::<Vec<_>>()})
                 }
             }
         }
-    };
+    }
     gix_protocol::indicate_end_of_interaction(&mut transport, false).ok();
-    json!({"ok": true, "err": "", "protocol": protocol, "refs": refs.iter().map(jref).collect::<Vec<_>>(),
-           "ls_args": sent_args.iter().map(|a| jbytes(a)).collect::<Vec<_>>()})
+    json!({"ok": true, "err": "", "protocol": protocol, "convs": convs})
+}
+
+fn prefix_sets_of(case: &Json) -> Vec<Vec<Vec<u8>>> {
+    case["prefix_sets"].as_array().map(|a| a.iter().map(bytes_list).collect()).unwrap_or_default()
 }
 
 fn main() {
     run(|case| {
         let version = version_of(&case["version"]);
-        let prefixes = bytes_list(&case["prefixes"]);
+        let prefixes = prefix_sets_of(case);
         match jstr(&case["op"]) {
             "live" => {
                 let path = jstr(&case["path"]);
